@@ -11,10 +11,10 @@ import random
 
 import numpy as np
 
-from . import ref, seams, pristine
+from . import seams, pristine
 from .core import Result, quiet, digest_of
 from .oracle import diff, fingerprint, outcome_diff
-from .simcfg import gen_sim_cfg, simpler_sim_cfgs
+from .simcfg import gen_sim_cfg
 from .simpool import Sim, Installed, SimDeadlock
 from .workload import thorough, gen_band, gen_signal_spec, build_signal, gen_thresholds, \
     gen_burst_kwargs, gen_find_extrema_kwargs
@@ -861,13 +861,6 @@ def progress_violation(stats, min_attempts=10):
 
 # =======================================================================================
 # shrinking / reporting
-
-def _prune(plan):
-    """Drop operations whose result arguments no longer exist (after an op was removed)."""
-    for s, ops in enumerate(plan['sessions']):
-        pass
-    return plan
-
 
 def shrink(plan):
     if plan['faults'].get('interrupts'):
